@@ -29,8 +29,43 @@ type slotRef struct {
 
 func (c *Ctx) findExtractors(oi *opInfo, nGates int64) map[*ssa.Function]*extractor {
 	out := map[*ssa.Function]*extractor{}
+	if c.inlineExtractors == nil {
+		c.inlineExtractors = map[*ssa.Call]*extractor{}
+	}
 	for _, f := range c.libFns {
 		if recvNamed(f) != oi.named || f.Parent() != nil {
+			continue
+		}
+		if f == oi.methods["Apply"] {
+			// an extractor written out in Apply itself: ops.ExtractMatrices(inputs[k], n, dims, hiddenSize), blocks taken as b[k]
+			for _, b := range f.Blocks {
+				for _, in := range b.Instrs {
+					cl, ok := in.(*ssa.Call)
+					if !ok {
+						continue
+					}
+					sc := cl.Common().StaticCallee()
+					if sc == nil || fnPkgPath(sc) != pkgOps || len(cl.Common().Args) != 4 || !isTensorish(cl.Common().Args[0].Type()) {
+						continue
+					}
+					if sl, ok := sc.Signature.Results().At(0).Type().Underlying().(*types.Slice); !ok || !isTensorish(sl.Elem()) {
+						continue
+					}
+					e := &extractor{fn: f}
+					e.n, _ = constInt(cl.Common().Args[1])
+					e.dims, _ = constInt(cl.Common().Args[2])
+					e.okRets = strings.Contains(c.term(cl.Common().Args[3], 0), "hiddenSize")
+					switch {
+					case e.dims == 3:
+						e.kind = "W"
+					case e.dims == 2 && e.n == 2*nGates:
+						e.kind = "B"
+					case e.dims == 2:
+						e.kind = "P"
+					}
+					c.inlineExtractors[cl] = e
+				}
+			}
 			continue
 		}
 		var em *ssa.Call
@@ -91,6 +126,20 @@ func (c *Ctx) findExtractors(oi *opInfo, nGates int64) map[*ssa.Function]*extrac
 }
 
 func (c *Ctx) slotOfValue(v ssa.Value, exs map[*ssa.Function]*extractor) *slotRef {
+	// b[k] of an extractor written out in Apply
+	if ld, isLd := v.(*ssa.UnOp); isLd && ld.Op == token.MUL {
+		if ia, isIA := ld.X.(*ssa.IndexAddr); isIA {
+			if k, isK := constInt(ia.Index); isK {
+				if mex, isEx := ia.X.(*ssa.Extract); isEx && mex.Index == 0 {
+					if call, isCall := mex.Tuple.(*ssa.Call); isCall {
+						if e := c.inlineExtractors[call]; e != nil {
+							return &slotRef{ex: e, call: call, k: int(k)}
+						}
+					}
+				}
+			}
+		}
+	}
 	ex, ok := v.(*ssa.Extract)
 	if !ok {
 		// single-result extractor (RNN getWeights returns (tensor, error))
@@ -206,7 +255,17 @@ func ruleR12(c *Ctx, prop string) {
 				c.decide(ok, "R12", "R12:P1:"+fname(f), c.pos(f.Pos()), fmt.Sprintf("%s block extractor: %d matrices of %d dims, result k = block k", e.kind, e.n, e.dims),
 					fmt.Sprintf("extractor requests %d blocks with %d dims or returns block j as result k != j: gate matrices are cut from the wrong rows of the packed tensor", e.n, e.dims))
 			}
-			if len(fs) < 2 {
+			nInline := 0
+			for cl, e := range c.inlineExtractors {
+				if cl.Parent() != apply {
+					continue
+				}
+				nInline++
+				ok := e.okRets && e.kind != "" && e.n == want[e.kind]
+				c.decide(ok, "R12", fmt.Sprintf("R12:P1:%s:inline@%s", sp.name, c.pos(cl.Pos())), c.pos(cl.Pos()), fmt.Sprintf("%s blocks cut in Apply: %d matrices of %d dims", e.kind, e.n, e.dims),
+					fmt.Sprintf("extractor requests %d blocks with %d dims: gate matrices are cut from the wrong rows of the packed tensor", e.n, e.dims))
+			}
+			if len(fs)+nInline < 2 {
 				c.undecided("R12", "R12:P1:floor:"+sp.name, c.pos(apply.Pos()), fmt.Sprintf("%s no longer cuts its packed tensors with at least two block extractors (methods returning the results of ops.ExtractMatrices in order; found %d): which rows of W/R/B reach which gate cannot be followed - e.g. the two bias halves Wb/Rb are combined by hand", sp.name, len(fs)))
 			}
 			c.checkGateCalls(oi, sp.name, sp.nGates, exs)
@@ -225,6 +284,9 @@ func (c *Ctx) checkGateCalls(oi *opInfo, name string, nGates int64, exs map[*ssa
 	// which input feeds which extractor call
 	srcInput := func(call *ssa.Call) int64 {
 		arg := call.Common().Args[1]
+		if c.inlineExtractors[call] != nil {
+			arg = call.Common().Args[0] // ops.ExtractMatrices(M, ...) written out in Apply: no receiver in front
+		}
 		seen := map[ssa.Value]bool{}
 		var res int64 = -1
 		var walk func(v ssa.Value)
